@@ -45,16 +45,42 @@ def _base(node):
     return ast.unparse(node)
 
 
-def lin(node, consts=None):
-    """AST expression -> Lin, or None when not linear.  ``consts`` maps atom spellings to integers."""
+def single_defs(func_node):
+    """locals of a function that are assigned exactly once, by a plain ``name = <expr>`` (no augmented assignment, no loop
+    target, no tuple target, not a parameter): they can be replaced by their definition"""
+    counts, values = {}, {}
+    for n in ast.walk(func_node):
+        if isinstance(n, ast.Assign):
+            for t in n.targets:
+                for x in ast.walk(t):
+                    if isinstance(x, ast.Name):
+                        counts[x.id] = counts.get(x.id, 0) + 1
+                        if isinstance(t, ast.Name) and len(n.targets) == 1:
+                            values[x.id] = n.value
+        elif isinstance(n, (ast.AugAssign, ast.AnnAssign)) and isinstance(n.target, ast.Name):
+            counts[n.target.id] = counts.get(n.target.id, 0) + 2
+        elif isinstance(n, (ast.For, ast.comprehension)):
+            for x in ast.walk(n.target):
+                if isinstance(x, ast.Name):
+                    counts[x.id] = counts.get(x.id, 0) + 2
+        elif isinstance(n, ast.arg):
+            counts[n.arg] = counts.get(n.arg, 0) + 2
+    return {k: v for k, v in values.items() if counts.get(k) == 1}
+
+
+def lin(node, consts=None, defs=None, _depth=0):
+    """AST expression -> Lin, or None when not linear.  ``consts`` maps atom spellings to integers; ``defs`` (single_defs)
+    lets single-assignment locals stand for their definition"""
     consts = consts or {}
+    if defs and isinstance(node, ast.Name) and node.id in defs and _depth < 6:
+        return lin(defs[node.id], consts, defs, _depth + 1)
     if isinstance(node, ast.Constant) and isinstance(node.value, int) and not isinstance(node.value, bool):
         return Lin(node.value)
     if isinstance(node, ast.UnaryOp) and isinstance(node.op, ast.USub):
-        x = lin(node.operand, consts)
+        x = lin(node.operand, consts, defs, _depth)
         return None if x is None else -x
     if isinstance(node, ast.BinOp):
-        a, b = lin(node.left, consts), lin(node.right, consts)
+        a, b = lin(node.left, consts, defs, _depth), lin(node.right, consts, defs, _depth)
         if isinstance(node.op, ast.Add) and a is not None and b is not None:
             return a + b
         if isinstance(node.op, ast.Sub) and a is not None and b is not None:
@@ -93,13 +119,13 @@ def lin(node, consts=None):
     return None
 
 
-def guard_deficit(test, consts=None):
+def guard_deficit(test, consts=None, defs=None):
     """For a comparison ``A < B`` / ``B > A`` return (needed - available as Lin, strict?) where the condition
     being true means 'available < needed'.  None when the test is not such a comparison."""
     if not (isinstance(test, ast.Compare) and len(test.ops) == 1):
         return None
     op = test.ops[0]
-    l, r = lin(test.left, consts), lin(test.comparators[0], consts)
+    l, r = lin(test.left, consts, defs), lin(test.comparators[0], consts, defs)
     if l is None or r is None:
         return None
     if isinstance(op, ast.Lt):
